@@ -35,6 +35,9 @@ type c02Case struct {
 	// Trailer: a message pipelined right behind the OPEN in the same stream:
 	// 1 = Cease NOTIFICATION with 40 data bytes, 2 = UPDATE with a 64-byte body
 	Trailer int `json:"trailer,omitempty"`
+	// Prev: earlier sessions of the same peer (outbound: of the same FSM object),
+	// each Established and ended without damping, before the connection under test
+	Prev []world.PrevSession `json:"prev,omitempty"`
 }
 
 func ipToU32(s string) uint32 {
@@ -293,6 +296,11 @@ func genC02(rt *rapid.T) c02Case {
 		c.OpenNotif = &world.NotifSpec{Code: pick[uint8](rt, "pncode", 2, 6, 2, rapid.Byte().Draw(rt, "pncoder")),
 			Sub: pick[uint8](rt, "pnsub", 7, 0, 4, rapid.Byte().Draw(rt, "pnsubr")), Data: genBytesN(rt, "pnd", n)}
 	}
+	if c.OpenNotif == nil && rapid.IntRange(0, 3).Draw(rt, "withprev") == 0 { // (a refusing plugin would refuse the earlier sessions too)
+		for i, n := 0, rapid.IntRange(1, 2).Draw(rt, "nprev"); i < n; i++ {
+			c.Prev = append(c.Prev, world.PrevSession{Hold: pick[uint16](rt, "prevhold", 0, 3, 90, 180), End: pick(rt, "prevend", "fin", "cease")})
+		}
+	}
 	return c
 }
 
@@ -386,7 +394,16 @@ func c02Prop(t *testing.T, r *hx.Run) func(c c02Case) hx.Verdict {
 				dev = hx.Devf(key, f, a...)
 			}
 		}
-		out, serr := world.Single(t, c.RouterID, peer, c.Out, nil, func(w *world.World, conn *memnet.Conn) {
+		out, serr := world.SinglePrev(t, c.RouterID, peer, c.Out, nil, c.Prev, func(w *world.World, conn *memnet.Conn) {
+			evBase := w.Rec.Len()
+			if evBase > 0 {
+				// the events of the earlier sessions, minus this connection's own GetCapabilities
+				for i, e := range w.Rec.Events() {
+					if e.K == "close-" {
+						evBase = i + 1
+					}
+				}
+			}
 			pre, perr := world.Parsed(conn)
 			if perr != nil || len(pre) != 1 || pre[0].Type != wire.TypeOpen {
 				fail("no-open-sent", "corebgp did not send exactly one OPEN on the new connection: %d messages, err %v", len(pre), perr)
@@ -409,14 +426,14 @@ func c02Prop(t *testing.T, r *hx.Run) func(c c02Case) hx.Verdict {
 			after := msgs[1:]
 			st := conn.Snapshot()
 			var opens []world.Ev
-			for _, e := range w.Rec.Events() {
+			for _, e := range w.Rec.Events()[evBase:] {
 				if e.K == "open+" {
 					opens = append(opens, e)
 				}
 			}
 			countEst := func() int {
 				n := 0
-				for _, e := range w.Rec.Events() {
+				for _, e := range w.Rec.Events()[evBase:] {
 					if e.K == "est+" {
 						n++
 					}
